@@ -1019,6 +1019,8 @@ func (r *EngineRunner) Exec(f []string) (res string) {
 		out := "ok " + Obs(v) + r.takeEvents(false)
 		r.keep(v, "Batch.Get("+f[2]+")")
 		return out
+	case "orphanbatch":
+		return r.orphanBatch(atoi(f[2]))
 	case "holebatch":
 		return r.holeBatch(atoi(f[2]), atoi(f[3]))
 	case "commitfail":
@@ -1904,6 +1906,10 @@ func (r *EngineRunner) withReadProbes(what string, run func() error) (error, int
 // withRefusedWrites runs f while the descriptor of the active data file is replaced by a read-only one, so that
 // every write to it is refused by the operating system; false (f not run) when the descriptor cannot be found
 func (r *EngineRunner) withRefusedWrites(target string, f func()) bool {
+	return r.withRefusedWritesIn(r.dir(), target, f)
+}
+
+func (r *EngineRunner) withRefusedWritesIn(_ string, target string, f func()) bool {
 	victim := -1
 	if ents, err := os.ReadDir("/proc/self/fd"); err == nil {
 		for _, e := range ents {
